@@ -52,40 +52,27 @@ Proof.
 Qed.
 Print Assumptions C07_precedence_documented_partial.
 
-(* the unstructure direction never produces a union-registry operation: the full statement holds there *)
-Theorem C07_unstructure_has_no_union_registry :
-  forall (W : world) (us : list uop), no_union_reg (filter is_reg (dops W src_csrc DUn us)) = true.
+(* neither direction produces a union-registry operation (the structure direction did
+   before the fix of finding F9): union registrations are ordinary exact-type entries *)
+Theorem C07_no_union_registry :
+  forall (W : world) (d : dir) (us : list uop), no_union_reg (filter is_reg (dops W src_csrc d us)) = true.
 Proof.
-  intros W us. induction us as [|u us IH]; [reflexivity|].
-  cbn [dops flat_map]. rewrite filter_app. unfold no_union_reg. rewrite forallb_app.
-  fold (dops W src_csrc DUn us). fold (no_union_reg (filter is_reg (dops W src_csrc DUn us))). rewrite IH, andb_true_r.
-  destruct u as [d' t h|d' p h|d' p f ext w|d' t uc]; cbn [dop].
-  - destruct d'; cbn [dir_eqb]; [|reflexivity]. unfold hook_reg_op. cbn [r_un src_csrc].
-    cbn [route_action]. destruct (w_is_union W t); [reflexivity|]. destruct (w_is_newtype W t); reflexivity.
-  - destruct d'; reflexivity.
-  - destruct d'; reflexivity.
-  - destruct uc; destruct d'; reflexivity.
+  intros W d us. unfold no_union_reg. apply forallb_filter.
+  apply (dops_no_ureg W src_csrc src_route_un_plain src_route_st_plain).
 Qed.
+
+(* C07, full statement: the documented rule, union registrations ordered by recency, both directions *)
+Theorem C07_precedence_documented :
+  forall (W : world) (full : bool) (o : optmap) (us : list uop) (d : dir) (t : ty),
+    Forall good_uop us ->
+    conv_lookup W src_cfg (urun W src_cfg src_csrc (build W src_cfg src_csrc full o) us) d t =
+    doc_choice W src_cfg (cdisp (build W src_cfg src_csrc full o) d) (doc_ops (filter is_reg (dops W src_csrc d us))) t.
+Proof.
+  intros. apply C07_precedence_documented_partial; [assumption | apply C07_no_union_registry].
+Qed.
+Print Assumptions C07_precedence_documented.
 
 Local Open Scope N_scope.
-(* Finding F9: in the structure direction the documented reading is false of the
-   code.  A predicate hook registered BEFORE a union hook still wins over it. *)
-Definition f9_world : world := {|
-  w_mro := fun _ => [];
-  w_user := fun p t => Some (N.eqb p 1 && N.eqb t 200);
-  w_init := fun i t => Some false;
-  w_is_union := fun t => N.eqb t 200; w_is_newtype := fun _ => false |}.
-Definition f9_ops : list uop := [URegFunc DSt 1 (HUser 1); URegHook DSt 200 (HUser 2)].
-
-Theorem C07_refuted_union_struct :
-  exists (W : world) (full : bool) (us : list uop) (t : ty),
-    Forall good_uop us /\
-    conv_lookup W src_cfg (urun W src_cfg src_csrc (build W src_cfg src_csrc full []) us) DSt t <>
-    doc_choice W src_cfg (cdisp (build W src_cfg src_csrc full []) DSt) (doc_ops (filter is_reg (dops W src_csrc DSt us))) t.
-Proof.
-  exists f9_world, false, f9_ops, 200. split; [repeat constructor|]. vm_compute. discriminate.
-Qed.
-
 (* non-vacuity: class beats predicate, newest predicate beats older, subclass beats base class *)
 Definition nv_world : world := {|
   w_mro := fun t => if N.eqb t 11 then [11; 10; 1] else if N.eqb t 10 then [10; 1] else [];
